@@ -59,6 +59,7 @@ class Gen:
         if multi:  # the decoy pair sub/common <-> common shares pointer names
             self.nparams[2] = self.nparams[3] = max(2, self.nparams[2])
         self.nitems = [rng.randrange(0, 3) if i < 2 else 0 for i in range(nfiles)]
+        self.chains = {fid: rng.choice([2, 3, 4, 7, 8, 9, 10, 11]) for fid in range(nfiles) if rng.random() < 0.12}
         if multi:
             self.nitems[1] = max(1, self.nitems[1])
 
@@ -94,6 +95,8 @@ class Gen:
             s = rng.choice(cross) if cross and rng.random() < 0.6 else rng.choice(cands)
         target = self.resolve_file(fid, s)
         tf = target if target is not None else 0
+        if kind == "params" and tf in self.chains and rng.random() < 0.5:
+            return {"ref": [s, ptr_for(tf, kind, f"C{rng.randrange(0, 3)}")]}
         n = rng.randrange(1, counts[tf] + 1) if counts[tf] and not self.bad() else 9
         return {"ref": [s, ptr_for(tf, kind, f"P{n}" if kind == "params" else f"I{n}")]}
 
@@ -192,8 +195,8 @@ class Gen:
                 else:
                     e = {"p": self.param()}
                 params.append([ptr, e])
-            if rng.random() < (0.08 if self.mal else 0.03):  # a long chain C0 -> C1 -> … -> Cn (n around the depth limit)
-                n = rng.choice([7, 8, 9, 10, 11])
+            if fid in self.chains:  # a chain C0 -> C1 -> … -> Cn (n up to just beyond the depth limit)
+                n = self.chains[fid]
                 for i in range(n):
                     params.append([ptr_for(fid, "params", f"C{i}"), {"ref": ["", ptr_for(fid, "params", f"C{i + 1}")]}])
                 params.append([ptr_for(fid, "params", f"C{n}"), {"p": self.param()}])
